@@ -1,5 +1,6 @@
 import Anysystem.Proofs.McMisc
 import Anysystem.Model.Time
+import Anysystem.Proofs.SimFates
 /-!
 # C12 — The checker explores exactly the permitted network fates, as the simulator
 
@@ -24,6 +25,23 @@ namespace Anysystem
 #check @corrupt_fns_equal
 #check @corruptData_no_quote
 #check @corruptData_not_idem
+
+/- "as the simulator", one send, arbitrary drop / duplication / corruption rates (`Proofs/SimFates.lean`): the complete
+    characterisation of what `Network::send_message` queues for a cross-node send (`SendFate`: `k ≤ 3` copies of the intact or
+    corrupted payload, `k = 0` iff random drop or cut path, each fault only under a positive rate), and every such fate is a path
+    of at most three reduced-enabled fault labels (`drop` | `corrupt`? then `dup`*) of the reference semantics from the single
+    flight the reference `send` creates with the options `McNetwork::send_message` computes; freshness (no identical flight in
+    the air) is necessary for a *fault-only* path (`fate_needs_fresh`: behind an identical older flight the faults of the new one
+    wait until the older one is consumed) -/
+#check @sendMessage_fate
+#check @SendFate.addedKeys
+#check @fate_covered
+#check @fate_covered_perm
+#check @send_fate_refines
+#check @send_fate_keeps_flights
+#check @fate_needs_fresh
+#check @SimFatesDemo.demo_refines
+#check @SimFatesDemo.demo_witness
 
 /-- the maximum number of copies is the simulator's: budget 2 means at most 3 deliveries, and the
     simulator emits `⌈2r⌉ + 1 ∈ {1,2,3}` copies for a draw `0 ≤ r < 1` (ticks out of 1000 here) -/
